@@ -49,6 +49,8 @@ func checkC13(c *core.Ctx) {
 	c.Explain = "Structural clauses of IP defragmentation (ip4defrag, ip6defrag): (R13.1) a fragment's payload length is never computed as Length minus a literal (it must come from IHL or len(Payload)), and sibling computations agree; (R13.2) every path that returns a datagram rebuilt from the fragment list first deletes that flow's map entry; (R13.3) the Length stored in the rebuilt IPv4 header depends on the header length; fragmentation fields are cleared; (R13.4) rebuilding is attempted only when the final fragment was seen and highest == current; (R13.5) in the build loop bytes are appended only on the 'contiguous' or 'overlapping' branch of the offset comparison, the 'hole' branch returns an error, and in the overlapping branch the running offset advances by an amount that depends on what was trimmed; (R13.6) duplicates (equal offset) return without touching the counters; unfragmented packets are returned as the same object. Not decided: permutation invariance, overlap policy, byte equality of the rebuilt payload."
 	duplicateTestFirst(c, c.Rule("R13.12", "T", "ip6defrag links a fragment behind a list element only after the duplicate test against that element failed"))
 	noVacuousRangeTests(c, c.Rule("R13.13", "T", "no size check of the defragmenters compares a narrow unsigned value with a constant it cannot exceed"))
+	lastSeenWithEveryFragment(c, c.Rule("R13.14", "T", "ip4defrag refreshes LastSeen for every fragment it counts"))
+	assemblyStopsAtFinal(c, c.Rule("R13.15", "T", "ip6defrag concatenates payloads only up to the fragment whose More flag is clear"))
 	flagsThroughMasks(c, c.Rule("R13.9", "T", "ip4defrag tests the IPv4 Flags field only through masks"))
 	listsOnlyFromTheMap(c, c.Rule("R13.10", "T", "the list a fragment is inserted into comes from the map under the packet's key (or is new and stored there)"))
 	adjacencyIsEquality(c, c.Rule("R13.11", "T", "completeness walks compare a fragment's end with the next offset for equality"))
